@@ -399,7 +399,7 @@ def run(ctx):
         run_cases(ctx, 'trees', tree_cases(nmax, quick), prop_tree, stop_after=4)
         run_cases(ctx, 'trees', stiff_tree_cases(quick), prop_tree, stop_after=2)
     if not only or 'final-size' in only:
-        run_hypothesis(ctx, 'final-size', final_case(), prop_final, 120 if quick else 3000, rounds=6)
+        run_hypothesis(ctx, 'final-size', final_case(), prop_final, 200 if quick else 3000, rounds=6)
     if not only or 'limits' in only:
         for nm in TAU0:                      # every model, every model pair: no reliance on how a sampler spreads its draws
             run_hypothesis(ctx, 'limits', limit_case('tau0', nm), prop_limit, 4 if quick else 100)
